@@ -106,6 +106,7 @@ def verify(harness, shape, params=None, kind='automaton', seed=0,
     if n_random is None:
         n_random = N_RANDOM
     functions = dict()
+    instances = list()
 
     def replayer(model, inputs, name):
         t0 = time.time()
@@ -135,6 +136,9 @@ def verify(harness, shape, params=None, kind='automaton', seed=0,
             harness(ctx)
         finally:
             functions.update(ctx.functions)
+            inst = getattr(ctx, 'instances', None)
+            if inst:
+                instances[:] = list(inst)
 
     t0 = time.time()
     try:
@@ -167,7 +171,8 @@ def verify(harness, shape, params=None, kind='automaton', seed=0,
                                        wall_s=round(time.time() - t0, 3)))
         raise
     stats['wall_s'] = round(time.time() - t0, 3)
-    return dict(records=records, stats=stats, functions=functions)
+    return dict(records=records, stats=stats, functions=functions,
+                instances=instances)
 
 
 def sweep(harness, shape, params=None, kind='automaton', seed=0, n=20,
